@@ -4,6 +4,6 @@ import "verif/harness/props/c19"
 
 func init() {
 	registry["C19"] = entry{run: c19.Run, level: "exploration",
-		rule: "cases = CONNECT attempts against a broker with the auth plugin (plain/md5/sha256/bcrypt, password file written with independently computed hashes): v3.1/v3.1.1/v5 x user/password flags x {correct, case, trailing byte, prefix, other user's password, stored hash itself, empty, 65535 bytes, unknown user} x AuthMethod/AuthData x will/clean x TCP/WebSocket, before and after account histories (Update/Delete/re-create through the plugin's account handlers) and broker restarts on the same file; plus scripts of unauthenticated traffic (before CONNECT, after a rejected CONNECT, good credentials after a rejection) whose effects on sessions, subscriptions, retained messages and an authenticated observer must be nil. Non-trivial = distinct (hash, attempt shape, user, verdict) / pre-auth script. Plus rounds of 8 concurrent account calls on distinct users with restarts. Plus: every account deleted through the API (1 or 2 accounts per hash kind), then a restart on the file the plugin wrote: nobody is accepted or listed. Every second broker of the run carries a second plugin with a pass-through basic-auth wrapper, alternately before and after auth in the plugin order.",
+		rule: "cases = CONNECT attempts against a broker with the auth plugin (plain/md5/sha256/bcrypt, password file written with independently computed hashes): v3.1/v3.1.1/v5 x user/password flags x {correct, case, trailing byte, prefix, other user's password, stored hash itself, empty, 65535 bytes, unknown user} x AuthMethod/AuthData x will/clean x TCP/WebSocket, before and after account histories (Update/Delete/re-create through the plugin's account handlers) and broker restarts on the same file; plus scripts of unauthenticated traffic (before CONNECT, after a rejected CONNECT, good credentials after a rejection) whose effects on sessions, subscriptions, retained messages and an authenticated observer must be nil. Non-trivial = distinct (hash, attempt shape, user, verdict) / pre-auth script. Plus rounds of 8 concurrent account calls (16 callers in flight per round, a restart after every second round) on distinct users with restarts. Plus: every account deleted through the API (1 or 2 accounts per hash kind), then a restart on the file the plugin wrote: nobody is accepted or listed. Every second broker of the run carries a second plugin with a pass-through basic-auth wrapper, alternately before and after auth in the plugin order.",
 		assumptions: []string{"stdlib md5/sha256 and x/crypto bcrypt as independent reference", "a CONNECT carrying an Authentication Method may legitimately be refused (no enhanced-auth hook); it must never be accepted without valid credentials"}}
 }
